@@ -54,6 +54,12 @@ static Cube cubeOf(const CubeDef& c) { Cube q; for (unsigned i = 0; i < NV; ++i)
 
 struct State {
   MTBDD* h[3]; bool live[3]; Tab tab[3]; Val dflt[3]; bool leaky;
+#ifdef SHAREDFN      // one binary functor object serves every apply and every Project of the history (its memo table is per call)
+  FB sharedFn;
+#define LOCAL_FB FB& fn = sharedFn
+#else
+#define LOCAL_FB FB fn
+#endif
   // d := (diagram m with shadow t): constructor when empty, operator= when alive
   void put(unsigned d, const MTBDD& m, const Tab& t, Val df) {
     if (live[d]) *h[d] = m; else h[d] = new MTBDD(m);
@@ -65,7 +71,7 @@ struct State {
     live[d] = true; tab[d] = t; dflt[d] = c.dflt;
   }
   void apply(unsigned d, unsigned a, unsigned b) {
-    FB fn; Tab t; for (unsigned i = 0; i < NA; ++i) t.v[i] = opb(tab[a].v[i], tab[b].v[i]);
+    LOCAL_FB; Tab t; for (unsigned i = 0; i < NA; ++i) t.v[i] = opb(tab[a].v[i], tab[b].v[i]);
     Val df = opb(dflt[a], dflt[b]);
     if (live[d]) *h[d] = fn(*h[a], *h[b]); else h[d] = new MTBDD(fn(*h[a], *h[b]));
     live[d] = true; tab[d] = t; dflt[d] = df;
@@ -86,7 +92,7 @@ struct State {
     return shape;
   }
   void project(unsigned d, unsigned a, unsigned removed) {
-    FB fn; Tab t; projectRef(tab[a].v, NV, removed, opb, t.v); Val df = dflt[a];
+    LOCAL_FB; Tab t; projectRef(tab[a].v, NV, removed, opb, t.v); Val df = dflt[a];
     leaky = leaky | projectLeakShape(a, removed);
     put(d, h[a]->Project([removed](size_t var) { return ((removed >> var) & 1) != 0; }, fn), t, df);
   }
@@ -101,6 +107,10 @@ struct State {
   void prefix(unsigned d, unsigned a) {
     Tab t; for (unsigned b = 0; b < NA; ++b) t.v[b] = tab[a].v[b | (1u << TOP)]; Val df = dflt[a];
     put(d, h[a]->GetMtbddForPrefix(Asgn(std::string("1")), TOP), t, df);
+  }
+  void prefix0(unsigned d, unsigned a) {
+    Tab t; for (unsigned b = 0; b < NA; ++b) t.v[b] = tab[a].v[b & ~(1u << TOP)]; Val df = dflt[a];
+    put(d, h[a]->GetMtbddForPrefix(Asgn(std::string("0")), TOP), t, df);
   }
   void unary(unsigned d, unsigned a) {
     FU fn; Tab t; for (unsigned b = 0; b < NA; ++b) t.v[b] = (tab[a].v[b] + 1) % NVAL; Val df = (dflt[a] + 1) % NVAL;
@@ -129,7 +139,11 @@ struct State {
       case 12: if (live[s1]) prefix(d, s1); break;
       case 13: if (live[s1]) unary(d, s1); break;
       case 14: if (live[d] && live[s1] && live[s2]) ternary(d, d, s1, s2); break;
+#ifdef PREFIX0     // action 15 is the other cofactor: d := h[d+1] under "top variable = 0"
+      default: if (live[s1]) prefix0(d, s1); break;
+#else
       default: { Tab t; t.fill(2); put(d, MTBDD(2u), t, 2); } break;
+#endif
     }
   }
   // every live handle still denotes its shadow function; same root <=> same function
@@ -142,7 +156,11 @@ struct State {
 extern "C" void harness(void)
 {
   unsigned act[STEPS], dst[STEPS];
-  for (unsigned k = 0; k < STEPS; ++k) { act[k] = pick(ACTSET ? 16 : 8); dst[k] = pick(3); }
+  for (unsigned k = 0; k < STEPS; ++k) { act[k] = pick(ACTSET ? 16 : 8); dst[k] = pick(3);
+#ifdef ACTMASK     // only the actions whose bit is set (longer histories over fewer kinds of action)
+    vs_assume((ACTMASK >> act[k]) & 1);
+#endif
+  }
 
   // a diagram that outlives the history and shares nodes with it
   const Cube qk = cubeOf(CK); const Tab tk = qk.tab(CK.value, CK.dflt);
